@@ -525,6 +525,10 @@ def run(R, tier, only=None, project=None):
             seen[lit.decode()] = v.v if isinstance(v, K) else repr(v)
         R.check(seen == {"MAXimum": hi, "MINimum": lo} and dflt_ok, "R07.3", "%s:keywords" % ity, "MAXimum -> %d, MINimum -> %d, other character data -> -104" % (hi, lo), "keyword table of the %s conversion is %s (expected MAXimum=%d, MINimum=%d, otherwise -104)" % (ity, seen, hi, lo), where=b.span)
 
+    # ---- R07.9 the value a non-decimal literal carries is the lexer's: its whole-element table (shared with C04/R04.8) ------------
+    if only is None:
+        from . import lexer as LX
+        LX.check_elements(R, "R07.9", ("non-decimal",), tier == "thorough")
     # ---- R07.4 element types: rows of the accept matrix --------------------------------------------------------------
     rows = C.matrix("dflt", "scpi")
     for ity in sorted(convs):
